@@ -51,6 +51,7 @@ struct Shm {
     char oracle_what[8][512];
     char oracle_trace[8][2048];
     char exec_fail[512];       // fork_each: failure text of the execution run in the grandchild
+    uint64_t exec_outcome;     // fork_each: outcome hash computed in the grandchild (the body's globals live there)
     int n_oracle;
     int max_dev;
     int replay_mode;
@@ -159,6 +160,7 @@ inline Outcome explore(const std::string& key_prefix, const std::function<std::s
                         int left = vxs_end();
                         if (left) f2 = "vx-sched: " + std::to_string(left) + " thread(s) not joined at the end of the body";
                         snprintf(s->exec_fail, sizeof s->exec_fail, "%s", f2.c_str());
+                        s->exec_outcome = outcome_hash ? outcome_hash() : 0;
                         _exit(0);
                     }
                     int gst = 0;
@@ -178,7 +180,7 @@ inline Outcome explore(const std::string& key_prefix, const std::function<std::s
                 s->choice_points += s->len;
                 if ((uint64_t)s->len > s->max_len) s->max_len = s->len;
                 if (outcome_hash) {
-                    uint64_t h = outcome_hash();
+                    uint64_t h = opt.fork_each ? s->exec_outcome : outcome_hash();
                     bool seen = false;
                     for (int i = 0; i < s->n_outcomes; i++) seen |= s->distinct_outcomes_hash[i] == h;
                     if (!seen && s->n_outcomes < 64) s->distinct_outcomes_hash[s->n_outcomes++] = h;
